@@ -197,6 +197,20 @@ type PolicyChooser struct {
 // quick tier, 3 in the thorough tier (longer contents, histories and inputs).
 var Scale = 1
 
+// Size draws the size class of a run (swarm style): most runs are small, some
+// medium, a few large; multiplied by the tier's Scale. Thresholds, capacities
+// and counters of the code under test are only reached by the large ones.
+func (r *Rand) Size() int {
+	switch n := r.Intn(100); {
+	case n < 72:
+		return Scale
+	case n < 95:
+		return 3 * Scale
+	default:
+		return 10 * Scale
+	}
+}
+
 // CoarseMode (flag -sim.coarse): pre-empt at operation boundaries only.
 var CoarseMode = false
 
